@@ -769,6 +769,8 @@ def c08(tier):
             T("utils", "VerifC08_OddLines", {"T": W(tier, 1, 2), "NS": W(tier, 3, 5), "NI": W(tier, 3, 6)}), T("utils", "VerifC08_FreeLine", {"L": W(tier, 6, 8)}),
             # work clause: instructions executed <= WA + WB*n*n (n relations); the unchanged tree needs about 1400*n
             T("graph", "VerifC08_BoundedWork", {"D": W(tier, 16, 40), "WA": 100000, "WB": 1000}),
+            # growth condition: work(2d) <= 1.25 * (size ratio)^2 * work(d) for the weighted builder, every family
+            T("graph", "VerifC08_Growth", {"D": W(tier, 24, 32)}, max_steps=400000000, init_allow=["gonum.org/v1/gonum/graph/encoding/dot"]),
             # printer: about 160*n on the unchanged tree; merge: about 340*n
             T("transformer", "VerifC08_PrinterWork", {"D": W(tier, 24, 48), "WA": 20000, "WB": 200}),
             T("transformer", "VerifC08_MergeWork", {"D": W(tier, 12, 24), "WA": 50000, "WB": 200}),
@@ -777,7 +779,7 @@ def c08(tier):
     out = engine_a_check("C08", tier, jobs, {"VerifC08_PrinterDegenerate": ["accepted", "rejected"], "VerifC08_ConditionsDegenerate": ["accepted", "rejected"], "VerifC15_Manifest": ["accepted", "rejected"],
                                              "VerifC16_SyntaxError": ["recorded"], "VerifC07_Merge": ["rejected"], "VerifC08_ListenerRecovery": ["walked"], "VerifC08_GraphDegenerate": ["accepted", "rejected"], "VerifC08_PlainGraphDegenerate": ["accepted"],
                                              "VerifC08_OddLines": ["declaration", "no-declaration"], "VerifC08_FreeLine": ["declaration", "no-declaration"],
-                                             "VerifC08_BoundedWork": ["weighted-accepted", "plain-accepted"], "VerifC08_PrinterWork": ["printed"], "VerifC08_MergeWork": ["merged", "rejected"], "VerifC08_ListenerWork": ["walked"]},
+                                             "VerifC08_BoundedWork": ["weighted-accepted", "plain-accepted"], "VerifC08_Growth": ["measured"], "VerifC08_PrinterWork": ["printed"], "VerifC08_MergeWork": ["merged", "rejected"], "VerifC08_ListenerWork": ["walked"]},
                          ["arbitrary bytes through the ANTLR lexer/parser, protojson and yaml.v3 are outside (not encoded); the complexity claim is decided for the two graph builders, the printer and the module merger (behind its parser stub) only, on families of layered/nested models whose path count is exponential in the depth while their size is linear (instructions executed by the executor <= A + B*n*n: graphs 100000 + 1000*n*n for n relations, the unchanged tree needs about 1400*n; printer 20000 + 200*n*n for n rewrite nodes, unchanged about 160*n; merge 50000 + 200*n*n for n declarations, unchanged about 340*n; listener walk over generated parse trees of nested expressions 200000 + 2000*n*n, unchanged about 1700*n); the lexer (form feeds) and parser are outside under the executor - natively the replay of the listener witnesses times the real ParseDSL",
                           "decided: no Go run-time panic on any explored path of the hand-written code (panic monitor)"], "",
                          bounds={"printer": "degenerate rewrite trees <= %d nodes (nil children, unset oneofs, operators without operands), nil metadata/restrictions/type definitions, 7 degenerate condition shapes" % W(tier, 4, 5),
